@@ -425,6 +425,39 @@ def check_retention(ctx, entry, t):
                  f"{entry} on an escape-rich receiver changed what it carries over: " + "; ".join(f"{c}: {w!r} -> {n!r}" for c, w, n in bad[:3]), fields=["retained:" + bad[0][0]], raw=str(u))
 
 
+_PQ_RECEIVER = "http://example.com/p?drop=1&k%26=v%3D%2B&%C3%A9=%25&p=1%2B1&s=a%3Bb&sp=a+b%20c&e=&flag&k%3D1=%26&drop=2&tail=%23%3F%2F#f"
+
+
+def _raw_pairs(raw_qs):
+    return [(pct_decode_bytes(k, True), pct_decode_bytes(v, True)) for k, _, v in (piece.partition("=") for piece in raw_qs.split("&") if piece)]
+
+
+def check_partial_query(ctx, t, sig):
+    """Query operations that touch SOME pairs (without_query_params, update_query / '%', extend_query) on a receiver whose other pairs
+    are full of encoded delimiters: every pair the call does not name keeps its decoded key and value - an '%26' stays the data '&'."""
+    from yarl import URL
+
+    if has_surrogate(t):
+        return
+    b = URL(_PQ_RECEIVER)
+    was = [p for p in _raw_pairs(b.raw_query_string) if p[0] not in (b"drop", b"zz")]
+    for label, fn in (("without_query_params", lambda: b.without_query_params("drop")), ("without_query_params2", lambda: b.without_query_params("drop", "nope")),
+                      ("update_query_dict", lambda: b.update_query({"drop": t})), ("update_query_pairs", lambda: b.update_query([("drop", t)])), ("update_query_str", lambda: b.update_query("drop=x")),
+                      ("mod_dict", lambda: b % {"drop": t}), ("extend_query_dict", lambda: b.extend_query({"zz": t})), ("extend_query_str", lambda: b.extend_query("zz=1")),
+                      ("update_query_kw", lambda: b.update_query(drop=t)), ("extend_query_pairs", lambda: b.extend_query([("zz", t)]))):
+        u = guarded(fn)
+        if is_exc(u):
+            continue
+        now = [p for p in _raw_pairs(u.raw_query_string) if p[0] not in (b"drop", b"zz")]
+        ctx.count("partial_query_checked")
+        ctx.ev(sig + (label, "ok" if now == was else "bad") if sig else None)
+        if now != was:
+            diff = next(((w, n) for w, n in zip(was, now) if w != n), (len(was), len(now)))
+            ctx.fail("meaning_changed", {"regime": "partial_query", "text": t}, f"{label} on {_PQ_RECEIVER!r}: a pair the call does not name changed: {diff[0]!r} -> {diff[1]!r} (raw query {u.raw_query_string!r})",
+                     fields=["partial_query:" + label], raw=str(u))
+            return
+
+
 def check_same_text(ctx, t, sig):
     """A modifier is handed, as DECODED text, exactly the raw text the receiver already holds in that component (escapes included):
     the argument's '%' are data, so the new component must decode to the argument's characters - 'nothing changes' is not true."""
@@ -600,6 +633,8 @@ def run(ctx):
             check_extend_boundary(ctx, c["text"], ("replay",))
         elif c["regime"] == "same_text":
             check_same_text(ctx, c["text"], ("replay",))
+        elif c["regime"] == "partial_query":
+            check_partial_query(ctx, c["text"], ("replay",))
         else:
             check_join(ctx, c["base"], c["ref"], ("replay",))
         return
@@ -626,6 +661,8 @@ def run(ctx):
                 check_update_str(ctx, f"k{t}=v{t}&x=1", ("update_str", kind, b >> 3, nb))
                 check_extend_boundary(ctx, t, ("extend_boundary", kind, b >> 3, nb))
                 check_same_text(ctx, t, ("same_text", kind, b >> 3, nb))
+                if nb == NEIGH[0]:
+                    check_partial_query(ctx, t, ("partial_query", kind, b >> 3))
                 check_join(ctx, f"http://h/d{t}/e{t}/f?bq#bf", f"g{t}/../h?{t}#{t}", ("join", kind, b >> 3, nb))
                 check_join(ctx, f"http://h/a%20b/c%2Fd%3F%23%25/{t}/f", "x", ("join-esc", kind, b >> 3, nb))
         # kept escapes (encoded delimiters, bytes >= 0x80, lower-case hex) placed around the compiled writer's buffer sizes: the
